@@ -245,7 +245,7 @@ def run_worker(case: dict) -> Outcome:
         out.v("too-few-iterations", f"only {n_resched} reschedules observed, expected at least {j['iterations']}")
     if tr.horizon_hit and n_resched < j["iterations"]:
         out.inconclusive = True
-    out.nontrivial = n_resched >= 2 and (len(durs) > 1 or len(case["jobs"]) > 1)
+    out.nontrivial = n_resched >= 2 and (len(durs) > 1 or len(case["jobs"]) > 1 or j["defer_by"] >= 86400)
     out.cls("broker-" + case["broker"], f"iterations-{n_resched}", "competing" if len(case["jobs"]) > 1 else "alone",
             "deferred_until" if j.get("defer_until") is not None else "plain")
     return out
